@@ -6,7 +6,7 @@ From Coq Require Import String List NArith Bool.
 From J5V.lib Require Import Outcome Strcase.
 From J5V.model Require Import J5sAst Desc J5sWalk J5sLink J5sConvert J5sContract J5sSymbols J5sTypeNames J5sValid J5sCorr.
 From J5V.gen Require ImportsGen.
-From J5V.proofs Require Import J5sProofs J5sContractProofs J5sLinkProofs J5sResolveProofs J5sResolveCompleteProofs J5sServiceProofs J5sTotalProofs J5sSymbolProofs J5sCompileProofs J5sSubPkgProofs J5sDepsProofs J5sNameProofs J5sTypeNameProofs J5sWitnessProofs J5sStrictProofs.
+From J5V.proofs Require Import J5sProofs J5sContractProofs J5sLinkProofs J5sResolveProofs J5sResolveCompleteProofs J5sServiceProofs J5sTotalProofs J5sSymbolProofs J5sCompileProofs J5sSubPkgProofs J5sDepsProofs J5sNameProofs J5sTypeNameProofs J5sWitnessProofs J5sStrictProofs StrcaseProofs J5sStrcaseProofs.
 Import ListNotations.
 Local Open Scope N_scope.
 
@@ -344,6 +344,51 @@ Proof.
   exists D. split; [exact Hc|]. exact (contract_strict_of_plain to_snake to_camel to_screaming_snake bd pkg D Hp Hok).
 Qed.
 Print Assumptions C02_full.
+
+(* ---- the contract with the byte-exact strcase functions put in (lib/Strcase.v; facts of
+   proofs/StrcaseProofs.v), for names of the documented shape: lowerCamel property names and
+   UpperCamel type names, digits allowed (lower_camel_d / upper_word_d) *)
+(* the JSON name the compiler writes (the declared name) is the JSON name protoc derives from
+   the proto field name: to_lower_camel (to_snake n) = n *)
+Theorem C02_json_name_is_protoc_default : forall ev path io num ps r,
+  cv_props to_snake to_camel to_screaming_snake ev path io num ps = Ok r ->
+  names_lcd (props_list ps) = true ->
+  forall i df, nth_error (pr_fields r) i = Some df ->
+    exists p, nth_error (props_list ps) i = Some p /\ f_name df = to_snake (prop_name p) /\
+              f_json df = prop_name p /\ to_lower_camel (f_name df) = f_json df.
+Proof.
+  intros ev path io num ps r H Hc.
+  destruct (C02_properties_contract to_snake to_camel to_screaming_snake ps ev path io num r H) as (Hf & _).
+  exact (fields_json_default io num (props_list ps) (pr_fields r) Hf Hc).
+Qed.
+Print Assumptions C02_json_name_is_protoc_default.
+
+(* ToSnake is injective on such names: distinct declared names give distinct proto field names
+   (the proto-name clause of `valid` follows from the JSON-name clause) *)
+Theorem C02_distinct_names_suffice : forall ps,
+  names_lcd (props_list ps) = true ->
+  J5sValid.distinct (map prop_name (props_list ps)) = true ->
+  J5sValid.distinct (map (fun p => to_snake (prop_name p)) (props_list ps)) = true.
+Proof. exact sibling_proto_names_distinct. Qed.
+Print Assumptions C02_distinct_names_suffice.
+
+(* the default enum prefix is the upper-cased snake form of the enum name and "_"; the default
+   name of an inline type is recovered from the snake form of an UpperCamel name *)
+Theorem C02_enum_default_prefix : forall name e,
+  e_prefix e = [] -> enum_pfx to_screaming_snake name e = map to_upper (to_snake name) ++ b "_".
+Proof. exact enum_default_prefix. Qed.
+Print Assumptions C02_enum_default_prefix.
+
+Theorem C02_inline_default_name_roundtrip : forall t given,
+  upper_word_d t = true -> given = [] -> inline_type_name to_camel (to_snake t) given = t.
+Proof. exact inline_default_name_roundtrip. Qed.
+Print Assumptions C02_inline_default_name_roundtrip.
+
+Example C02_strcase_example :
+  names_lcd [Property (b "address2Line") false false (FScalar SString); Property (b "fooB2") false false (FScalar SString)] = true /\
+  to_snake (b "address2Line") = b "address_2_line" /\ to_lower_camel (b "address_2_line") = b "address2Line" /\
+  enum_pfx to_screaming_snake (b "FooBar") (mkEnum (b "FooBar") [] []) = b "FOO_BAR_".
+Proof. repeat split; vm_compute; reflexivity. Qed.
 
 (* ---- regression examples: the inputs of the repaired defects compile to the declared types *)
 Theorem C02_fixed_inline_named_like_parent :
